@@ -49,6 +49,10 @@ Trans == {<<OP_1ADD>>, <<OP_1SUB>>, <<OP_NEGATE>>, <<OP_ABS>>, <<OP_NOT>>, <<OP_
 AliasProgs == {PushMin(<<9>>) \o PushMin(x) \o pv \o tr \o tl : x \in AliasItems, pv \in Prov, tr \in Trans,
                tl \in {<<OP_NOP>>, <<OP_FROMALTSTACK>>, <<OP_SWAP, OP_1ADD>>}}
 
+LockVals == {<<>>, <<1>>, <<10>>, <<129>>, <<255, 255, 0>>, <<0, 0, 64>>, <<5, 0, 64>>, <<255, 100, 205, 29>>, <<0, 101, 205, 29>>,
+             <<0, 0, 0, 128, 0>>, <<5, 0, 64, 128, 0>>, <<255, 255, 255, 255, 127>>, <<1, 2, 3, 4, 5, 6>>, <<10, 0>>}
+LockLts == {<<0, 0, 0, 0>>, <<10, 0, 0, 0>>, <<255, 100, 205, 29>>, <<0, 101, 205, 29>>, <<255, 255, 255, 255>>}
+LockSeqs == {<<255, 255, 255, 255>>, <<0, 0, 0, 0>>, <<10, 0, 0, 0>>, <<5, 0, 64, 0>>, <<10, 0, 0, 128>>, <<254, 255, 255, 255>>}
 \* lock-script bytes per family (the unlocking script is empty unless stated)
 Locks == CASE Family = "unary" -> {PushMin(a) \o <<op>> \o tail : a \in Edge, op \in UnaryOps, tail \in {<<>>, <<OP_ENDIF>>}}
            [] Family = "binary" -> {PushMin(a) \o PushMin(b) \o <<op>> : a \in Edge, b \in Edge, op \in BinaryOps}
@@ -57,6 +61,7 @@ Locks == CASE Family = "unary" -> {PushMin(a) \o <<op>> \o tail : a \in Edge, op
                                      x \in Blobs, n \in 0..74, op \in {OP_LSHIFT, OP_RSHIFT}}
            [] Family = "flow5" -> {Concat(s) \o <<OP_1>> : s \in SeqsUpTo(FlowAlpha, 5)}
            [] Family = "flow4" -> {Concat(s) \o <<OP_1>> : s \in SeqsUpTo(FlowAlpha, 4)}
+           [] Family = "locktime" -> {PushMin(v) \o <<op>> \o tl : v \in LockVals, op \in {OP_CLTV, OP_CSV}, tl \in {<<>>, <<OP_DROP, OP_1>>}}
            [] Family = "alias" -> AliasProgs
            [] Family = "nonmin" -> {<<Len(a)>> \o a \o <<Len(b)>> \o b \o <<op>> : a \in Small \ {<<>>}, b \in Small \ {<<>>},
                                       op \in {OP_ADD, OP_EQUAL, OP_PICK, OP_SPLIT, OP_NUM2BIN, OP_LSHIFT}}
@@ -76,7 +81,10 @@ Flags(md, mi) == [p2sh |-> FALSE, nulldummy |-> FALSE, discourage |-> FALSE, clt
 TwoCtxs == {[genesis |-> g, f |-> [Flags(FALSE, FALSE) EXCEPT !.p2sh = pc[1], !.cleanstack = pc[2], !.sigpushonly = so],
               lt |-> <<0, 0, 0, 0>>, seq |-> <<255, 255, 255, 255>>, ver |-> <<1, 0, 0, 0>>, sigmode |-> "none", sx |-> <<>>] :
               g \in BOOLEAN, pc \in {<<FALSE, FALSE>>, <<TRUE, FALSE>>, <<TRUE, TRUE>>}, so \in BOOLEAN}
-Ctxs == IF Family \in {"two2", "two3"} THEN TwoCtxs ELSE
+LockCtxs == {[genesis |-> g, f |-> [Flags(md, FALSE) EXCEPT !.discourage = dc, !.cltv = on, !.csv = on], lt |-> lt, seq |-> sq, ver |-> vr,
+               sigmode |-> "none", sx |-> <<>>] :
+               g \in BOOLEAN, md \in BOOLEAN, dc \in BOOLEAN, on \in BOOLEAN, lt \in LockLts, sq \in LockSeqs, vr \in {<<1, 0, 0, 0>>, <<2, 0, 0, 0>>}}
+Ctxs == IF Family = "locktime" THEN LockCtxs ELSE IF Family \in {"two2", "two3"} THEN TwoCtxs ELSE
         {[genesis |-> g, f |-> Flags(md, mi), lt |-> <<0, 0, 0, 0>>, seq |-> <<255, 255, 255, 255>>, ver |-> <<1, 0, 0, 0>>, sigmode |-> "none", sx |-> <<>>] :
            g \in BOOLEAN, md \in BOOLEAN, mi \in IF Family \in {"flow5", "flow4", "unary", "nonmin"} THEN BOOLEAN ELSE {FALSE}}
 
@@ -103,6 +111,7 @@ NumericResultsMinimal == TRUE
 \* one case per program, emitted at its terminal state together with the specification's outcome
 EmitCase == (vm.st # "run" \/ NeedsOracle(vm)) =>
                PrintT(ToJson([k |-> "case", unlock |-> prog.u, lock |-> prog.l, genesis |-> cx.genesis, md |-> cx.f.minimaldata, mi |-> cx.f.minimalif,
+                              discourage |-> cx.f.discourage, cltv |-> cx.f.cltv, csv |-> cx.f.csv, lt |-> cx.lt, seq |-> cx.seq, ver |-> cx.ver,
                               p2sh |-> cx.f.p2sh, cleanstack |-> cx.f.cleanstack, sigpushonly |-> cx.f.sigpushonly,
                               st |-> vm.st, verdict |-> Verdict(vm, cx)]))
 =================================================================================
